@@ -26,7 +26,7 @@ def strategy(tier):
     @st.composite
     def s(draw):
         c, n, tp = draw(gens.cfg(max_dim=144 if tier == "thorough" else 112, frames=(2, 8), allow_twopass=False, lps=(1,),
-                                 presets=(8, 8, 7, 6, 5, 4, 3), slow_p=10 if tier == "thorough" else 0, allow_rc=False, exclude=("AQ1", "GRAIN", "SRES", "2PASS")))
+                                 presets=(8, 8, 7, 6, 5, 4, 3), slow_p=10 if tier == "thorough" else 0, allow_rc=False, exclude=("AQ1", "GRAIN", "SRES", "2PASS", "16BP")))
         cnt = draw(gens.content(kinds=(2, 3, 5, 6, 7, 4)))
         lv = draw(st.lists(st.sampled_from(["sse2", "ssse3", "sse4_1", "avx2", "all", "all", "avx2"]), min_size=2, max_size=3, unique=True))
         case = gens.case_from(c, n, tp, cnt)
